@@ -37,3 +37,24 @@ pub fn guarded<T>(f: impl FnOnce() -> T) -> Result<T, String> {
 pub fn analyze(f: &ast::File) -> Result<ast::File, analyzer::Diagnostics> {
     analyzer::analyze(f)
 }
+
+/// At most 16 external compiler processes (g++, javac) at a time: a thorough batch would otherwise start
+/// several hundred of them at once and exhaust the memory.
+pub struct Slot;
+static SLOTS: (std::sync::Mutex<usize>, std::sync::Condvar) = (std::sync::Mutex::new(0), std::sync::Condvar::new());
+pub fn compile_slot() -> Slot {
+    let (m, c) = &SLOTS;
+    let mut n = m.lock().unwrap();
+    while *n >= 16 {
+        n = c.wait(n).unwrap();
+    }
+    *n += 1;
+    Slot
+}
+impl Drop for Slot {
+    fn drop(&mut self) {
+        let (m, c) = &SLOTS;
+        *m.lock().unwrap() -= 1;
+        c.notify_one();
+    }
+}
